@@ -103,7 +103,8 @@ def outcome_of(task: asyncio.Task):
 
 
 def execute(case: Case, prefix: t.Sequence[str] = (), bound: int = 0, reduce: bool = True,
-            chart: t.Any = None, horizon: int = HORIZON, world_hook: t.Optional[t.Callable] = None) -> Execution:
+            chart: t.Any = None, horizon: int = HORIZON, world_hook: t.Optional[t.Callable] = None,
+            policy: str = 'first') -> Execution:
     _install()
     if chart is None:
         chart = case.chart_factory() if case.chart_factory else codegen.chart(case.spec, case.collab)
@@ -176,7 +177,7 @@ def execute(case: Case, prefix: t.Sequence[str] = (), bound: int = 0, reduce: bo
                     if opts is None or label not in opts:
                         raise ReplayDivergence(f'label {label!r} not enabled at action {i}; enabled: {opts}')
             else:
-                label = 'step' if not quiescent else opts[0]
+                label = 'step' if not quiescent else (opts[0] if policy == 'first' else opts[-1])
             if opts is not None and len(opts) > 1:
                 points[i] = (tuple(opts), quiescent, cost)
             actions.append(label)
